@@ -13,7 +13,7 @@ and for decoding text into XSD atomic data values.
 """
 from collections.abc import Iterator
 from decimal import Decimal
-from typing import Optional, Union
+from typing import Any, cast, Optional, Union
 
 from elementpath import aliases
 from elementpath.aliases import AnyNsmapType
@@ -106,11 +106,32 @@ def iter_atomic_values(xsd_type: XsdTypeProtocol) -> Iterator[aliases.AtomicType
             for member_type in root_type.member_types:
                 yield from _iter_values(member_type, depth + 1)
 
+    def _builtin_base(derived_type: Any) -> Optional[XsdTypeProtocol]:
+        # The nearest builtin ancestor of a type derived by restriction (e.g. xs:integer
+        # for a restriction of xs:integer, while its root type is the primitive xs:decimal).
+        for _ in range(15):
+            derived_type = getattr(derived_type, 'base_type', None)
+            if derived_type is None:
+                return None
+            elif derived_type.name in atomic_values:
+                return cast(XsdTypeProtocol, derived_type)
+        return None
+
     atomic_values = _ATOMIC_VALUES[xsd_type.xsd_version]
     if xsd_type.name in atomic_values:
         yield atomic_values[xsd_type.name]
     elif xsd_type.is_simple() or (simple_type := xsd_type.simple_type) is None:
-        yield from _iter_values(xsd_type.root_type, 1)
+        base_type: Optional[XsdTypeProtocol]
+        if xsd_type.is_list():
+            base_type = getattr(xsd_type, 'item_type', None)
+            if base_type is not None and base_type.name not in atomic_values:
+                base_type = _builtin_base(base_type)
+        else:
+            base_type = _builtin_base(xsd_type)
+        if base_type is not None and base_type.name in atomic_values:
+            yield atomic_values[base_type.name]
+        else:
+            yield from _iter_values(xsd_type.root_type, 1)
     elif simple_type.name in atomic_values:
         yield atomic_values[simple_type.name]
     else:
